@@ -61,10 +61,10 @@ def ensure_facts(repo=None):
                 raise ExtractError(r.stdout + r.stderr)
             subprocess.run(["rm", "-rf", out])
             os.rename(tmp, out)
-            # keep the cache bounded: drop all but the 400 most recent fact dirs (about 4 MB each: the replay corpus has about 250 trees); parallel mutant
+            # keep the cache bounded: drop all but the 1000 most recent fact dirs (about 4 MB each: the replay corpus has about 600 trees); parallel mutant
             # replays must not evict each other's facts while they are still being read
             ds = sorted((os.path.join(CACHE, "facts", d) for d in os.listdir(os.path.join(CACHE, "facts")) if ".tmp" not in d), key=os.path.getmtime)
-            for d in ds[:-400]:
+            for d in ds[:-1000]:
                 subprocess.run(["rm", "-rf", d])
     finally:
         fcntl.flock(lock, fcntl.LOCK_UN)
